@@ -26,7 +26,7 @@
 #define OSFN(x) x
 #endif
 
-struct OsPipe { std::string data; bool w_open, r_open; int r_fd, w_fd; };
+struct OsPipe { std::string data; bool w_open, r_open, child_w; int r_fd, w_fd; bool writers() const { return w_open || child_w; } };     // w_open: ninja's own copy of the write end; child_w: the copy the spawned command holds until it exits
 struct OsProc {
   int pid; bool console; int pipe; int ref;             // index into g_ref
   std::vector<long> snap; bool missing_input; int flags; long cmdh;
@@ -38,10 +38,11 @@ struct OsWorld {
   int fifo_tokens; bool fifo_exists; std::vector<unsigned char> fifo; int fifo_r, fifo_w; int fifo_taken, fifo_returned;
   void (*h_int)(int); void (*h_term)(int); void (*h_hup)(int); void (*h_chld)(int, siginfo_t*, void*); bool handlers_installed;
   int pending_signal; bool sigchld_first; int interrupts_left; int open_fds;
+  int external_tokens_left; bool told_token_available; bool fifo_read_tried;      // another jobserver client may put a token back while ninja waits
   // spawn description being assembled by posix_spawn_file_actions_* / posix_spawnattr_*
   int fa_dup_to_1, fa_dup_to_2; bool fa_stdin_null; std::vector<int> fa_close; short at_flags; bool at_sigmask;
   OsWorld() : next_pid(100), fifo_tokens(-1), fifo_exists(false), fifo_r(-1), fifo_w(-1), fifo_taken(0), fifo_returned(0), h_int(0), h_term(0), h_hup(0), h_chld(0), handlers_installed(false),
-              pending_signal(0), sigchld_first(false), interrupts_left(0), open_fds(0), fa_dup_to_1(-1), fa_dup_to_2(-1), fa_stdin_null(false), at_flags(0), at_sigmask(false) {}
+              pending_signal(0), sigchld_first(false), interrupts_left(0), open_fds(0), external_tokens_left(0), told_token_available(false), fifo_read_tried(false), fa_dup_to_1(-1), fa_dup_to_2(-1), fa_stdin_null(false), at_flags(0), at_sigmask(false) {}
 };
 static OsWorld* g_os;
 static RunnerOpts g_os_opts;
@@ -71,7 +72,7 @@ static void os_sink_event(const std::string& e) { if (g_sink) g_sink->events.pus
 static void os_proc_exit(OsProc& p) {
   const RefEdge& e = g_ref[p.ref]; int ord = e.ordinal;
   p.exited = true;
-  if (p.pipe >= 0) { OsPipe& pp = g_os->pipes[p.pipe]; pp.data += p.to_write; p.to_write.clear(); }
+  if (p.pipe >= 0) { OsPipe& pp = g_os->pipes[p.pipe]; pp.data += p.to_write; p.to_write.clear(); pp.child_w = false; }
   if (p.killed_by) { p.wstatus = p.killed_by; return; }            // terminated by the signal ninja sent: nothing written
   bool fail = p.will_fail;
   if (g_dead) { p.wstatus = 0; return; }
@@ -103,7 +104,7 @@ static void os_proc_exit(OsProc& p) {
 extern "C" {
 // ------------------------------------------------------------------------------------------------ pipes and descriptors
 int OSFN(pipe)(int fds[2]) {
-  OsPipe p; p.w_open = p.r_open = true; p.r_fd = os_new_fd(); p.w_fd = os_new_fd(); g_os->pipes.push_back(p); g_os->open_fds += 2;
+  OsPipe p; p.w_open = p.r_open = true; p.child_w = false; p.r_fd = os_new_fd(); p.w_fd = os_new_fd(); g_os->pipes.push_back(p); g_os->open_fds += 2;
   fds[0] = p.r_fd; fds[1] = p.w_fd; return 0;
 }
 int OSFN(close)(int fd) {
@@ -121,10 +122,11 @@ int OSFN(close)(int fd) {
 ssize_t OSFN(read)(int fd, void* buf, size_t n) {
   bool w; OsPipe* p = os_pipe_of(fd, &w);
   if (p && !w) {
-    if (p->data.empty()) { VERIF_ASSERT(!p->w_open, "C06: ninja reads a command's pipe only when poll reported it ready (a blocking read would hang the build)"); return 0; }
+    if (p->data.empty()) { VERIF_ASSERT(!p->writers(), "C06: ninja reads a command's pipe only when poll reported it ready (a blocking read would hang the build)"); return 0; }
     size_t k = p->data.size() < n ? p->data.size() : n; memcpy(buf, p->data.data(), k); p->data.erase(0, k); return (ssize_t)k;
   }
   if (g_os && fd >= 0 && fd == g_os->fifo_r) {
+    g_os->fifo_read_tried = true;
     if (g_os->fifo.empty()) { errno = EAGAIN; return -1; }
     *(unsigned char*)buf = g_os->fifo.back(); g_os->fifo.pop_back(); g_os->fifo_taken++; return 1;
   }
@@ -202,7 +204,7 @@ int OSFN(posix_spawn)(pid_t* pid, const char* path, const posix_spawn_file_actio
   p.out_on_pipe = g_os->fa_dup_to_1 >= 0 && g_os->fa_dup_to_1 == g_os->fa_dup_to_2; p.own_pgroup = (g_os->at_flags & POSIX_SPAWN_SETPGROUP) != 0; p.stdin_null = g_os->fa_stdin_null;
   p.console = !p.out_on_pipe; p.pipe = -1;
   if (p.out_on_pipe) { for (size_t i = 0; i < g_os->pipes.size(); i++) if (g_os->pipes[i].w_open && g_os->pipes[i].w_fd == g_os->fa_dup_to_1) p.pipe = (int)i;
-    VERIF_ASSERT(p.pipe >= 0, "C20: a command's stdout and stderr are the write end of its own pipe"); if (p.pipe < 0) return EBADF; }
+    VERIF_ASSERT(p.pipe >= 0, "C20: a command's stdout and stderr are the write end of its own pipe"); if (p.pipe < 0) return EBADF; g_os->pipes[p.pipe].child_w = true; }
   VERIF_ASSERT(p.console == e.console, "C20: exactly the commands of the console pool inherit the terminal, all others write into a pipe");
   if (!p.console) { VERIF_ASSERT(p.own_pgroup && p.stdin_null, "C07: a command that does not own the console runs in its own process group with stdin from /dev/null");
     bool closes_r = false; for (size_t i = 0; i < g_os->fa_close.size(); i++) closes_r = closes_r || g_os->fa_close[i] == g_os->pipes[p.pipe].r_fd;
@@ -231,7 +233,7 @@ int OSFN(posix_spawn)(pid_t* pid, const char* path, const posix_spawn_file_actio
   if (p.will_fail) p.to_write = g_os_opts.prints_output ? "<<err " + e.outs[0] + ">>\n" : std::string("boom");
   else if (g_os_opts.prints_output && !p.console && verif_bool("command_prints")) { p.to_write = "<<out " + e.outs[0] + ">>\npart two of " + e.outs[0] + "\n"; p.split = verif_bool("output_in_two_writes"); os_sink_event("printed " + e.outs[0]); }
   if (!p.will_fail && e.deps_type == "msvc") for (size_t q = 0; q < e.reads.size(); q++) p.to_write += "Note: including file: " + e.reads[q] + "\n";
-  if (g_dead) { p.exited = true; p.reaped = false; p.wstatus = 0; if (p.pipe >= 0) g_os->pipes[p.pipe].data.clear(); }
+  if (g_dead) { p.exited = true; p.reaped = false; p.wstatus = 0; if (p.pipe >= 0) { g_os->pipes[p.pipe].data.clear(); g_os->pipes[p.pipe].child_w = false; } }
   g_os->procs.push_back(p);
   if (g_sink) { g_sink->started.push_back(e.ordinal); if (running + 1 > g_sink->max_running) g_sink->max_running = running + 1; } os_sink_event("start " + e.outs[0]);
   *pid = p.pid; return 0;
@@ -262,12 +264,18 @@ int OSFN(kill)(pid_t pid, int sig) {
   if (sig != 0 && !p->exited) { p->killed_by = sig; os_sink_event("killed " + g_ref[p->ref].outs[0]);
     // the command may already have modified its outputs when the signal reaches it
     if (verif_bool("interrupted_command_touched_outputs")) { const RefEdge& e = g_ref[p->ref]; for (size_t k = 0; k < e.outs.size(); k++) g_tree->write(e.outs[k], -13 - (long)k); os_sink_event("touched " + e.outs[0]); }
-    p->to_write.clear(); os_proc_exit(*p); if (p->pipe >= 0) g_os->pipes[p->pipe].w_open = false; }
+    p->to_write.clear(); os_proc_exit(*p); }
   return 0;
 }
 // ------------------------------------------------------------------------------------------------ the scheduler: what happens while ninja waits
 int OSFN(ppoll)(struct pollfd* fds, nfds_t nfds, const struct timespec*, const sigset_t*) {
   if (verif_vfs_frozen()) g_dead = true;
+  // the previous poll returned with nothing but "a jobserver token is available": ninja must have tried to take it before it waits again
+  if (g_os->told_token_available) { VERIF_ASSERT(g_os->fifo_read_tried, "C06: told that a jobserver token is available while a command is startable, ninja takes it instead of going back to wait (no slot idles, the build finishes)"); g_os->told_token_available = false; }
+  // another client of the jobserver returns a token to the pool while ninja is waiting for one
+  { bool watching = false; for (nfds_t i = 0; i < nfds; i++) watching = watching || (fds[i].fd >= 0 && fds[i].fd == g_os->fifo_r);
+    { bool pipes = false; for (nfds_t i = 0; i < nfds; i++) { bool w; if (fds[i].fd >= 0 && os_pipe_of(fds[i].fd, &w)) pipes = true; } if (watching && !pipes) verif_reach("watching-with-console-only"); }
+    if (watching && g_os->external_tokens_left > 0 && verif_bool("another_client_returns_a_token")) { g_os->external_tokens_left--; g_os->fifo.push_back((unsigned char)'z'); g_os->fifo_tokens++; verif_reach("token-arrived"); } }
   // an interrupt signal arrives while ninja waits (its handler runs, the poll fails with EINTR) ...
   if (g_os->interrupts_left > 0 && verif_bool("interrupt_now")) {
     g_os->interrupts_left--; int which = verif_choice("interrupt_signal", 3); int sig = which == 0 ? SIGINT : which == 1 ? SIGTERM : SIGHUP;
@@ -277,17 +285,26 @@ int OSFN(ppoll)(struct pollfd* fds, nfds_t nfds, const struct timespec*, const s
     if (verif_bool("signal_delivered_during_poll")) { void (*h)(int) = sig == SIGINT ? g_os->h_int : sig == SIGTERM ? g_os->h_term : g_os->h_hup; VERIF_ASSERT(h != 0, "C07: ninja has a handler installed for SIGINT, SIGTERM and SIGHUP while it waits"); if (h) h(sig); errno = EINTR; return -1; }
     g_os->pending_signal = sig;          // ... or it stays pending while the poll returns descriptor events
   }
+  // a readable jobserver descriptor alone is a reason for the poll to return: nothing else has to happen first
+#ifdef DEBUG_EVENTS
+  { char b[200]; int w = 0; for (nfds_t i = 0; i < nfds; i++) if (fds[i].fd >= 0 && fds[i].fd == g_os->fifo_r) w = 1; snprintf(b, sizeof b, "ppoll nfds=%d watching=%d fifo=%d pending=%d live=%d", (int)nfds, w, (int)g_os->fifo.size(), g_os->pending_signal, os_running()); verif_note(b); }
+#endif
+  { bool fifo_watched_ready = false; for (nfds_t i = 0; i < nfds; i++) if (fds[i].fd >= 0 && fds[i].fd == g_os->fifo_r && !g_os->fifo.empty()) fifo_watched_ready = true;
+    bool other_ready = false; for (nfds_t i = 0; i < nfds; i++) { if (fds[i].fd < 0) continue; bool w; OsPipe* pp = os_pipe_of(fds[i].fd, &w); if (pp && !w && (!pp->data.empty() || !pp->writers())) other_ready = true; }
+    if (fifo_watched_ready && !other_ready && !g_os->pending_signal && verif_bool("poll_returns_for_the_token_alone")) {
+      int n1 = 0; for (nfds_t i = 0; i < nfds; i++) { fds[i].revents = 0; if (fds[i].fd >= 0 && fds[i].fd == g_os->fifo_r) { fds[i].revents = POLLIN; n1++; } }
+      g_os->told_token_available = true; g_os->fifo_read_tried = false; verif_reach("woken-for-token"); return n1; } }
   // one process makes progress: writes (part of) its output or exits
   std::vector<int> live; for (size_t i = 0; i < g_os->procs.size(); i++) if (!g_os->procs[i].exited) live.push_back((int)i);
   bool any_ready = false;
-  for (nfds_t i = 0; i < nfds; i++) { fds[i].revents = 0; if (fds[i].fd < 0) continue; bool w; OsPipe* pp = os_pipe_of(fds[i].fd, &w); if (pp && !w && (!pp->data.empty() || !pp->w_open)) any_ready = true; }
+  for (nfds_t i = 0; i < nfds; i++) { fds[i].revents = 0; if (fds[i].fd < 0) continue; bool w; OsPipe* pp = os_pipe_of(fds[i].fd, &w); if (pp && !w && (!pp->data.empty() || !pp->writers())) any_ready = true; }
   bool console_exit = false;
   if (!live.empty() && !(any_ready && g_os->pending_signal)) {
     int k = live.size() > 1 ? verif_choice("finish_which", (int)live.size()) : 0; OsProc& p = g_os->procs[live[k]];
     if (!p.to_write.empty() && p.split) { size_t cut = p.to_write.find('\n') + 1; g_os->pipes[p.pipe].data += p.to_write.substr(0, cut); p.to_write.erase(0, cut); p.split = false; }
     else {
       if (g_os_opts.prints_output && p.console) VERIF_ASSERT(verif_stdout_len() == p.stdout_len_at_start, "C20: while a console-pool command owns the terminal nothing else is written to it");
-      os_proc_exit(p); if (p.pipe >= 0) g_os->pipes[p.pipe].w_open = false;
+      os_proc_exit(p);
       console_exit = p.console;
       if (g_os->h_chld) g_os->h_chld(SIGCHLD, NULL, NULL);
       // the SIGCHLD may interrupt the poll before the end of file on the pipe is reported (always so for console commands, which have no pipe)
@@ -300,7 +317,7 @@ int OSFN(ppoll)(struct pollfd* fds, nfds_t nfds, const struct timespec*, const s
   }
   int n = 0;
   for (nfds_t i = 0; i < nfds; i++) { if (fds[i].fd < 0) continue; bool w; OsPipe* pp = os_pipe_of(fds[i].fd, &w);
-    if (pp && !w) { if (!pp->data.empty()) fds[i].revents |= POLLIN; if (!pp->w_open) fds[i].revents |= POLLHUP; }
+    if (pp && !w) { if (!pp->data.empty()) fds[i].revents |= POLLIN; if (!pp->writers()) fds[i].revents |= POLLHUP; }
     else if (fds[i].fd == g_os->fifo_r && !g_os->fifo.empty()) fds[i].revents |= POLLIN;
     if (fds[i].revents) n++; }
   return n;
@@ -310,14 +327,15 @@ int OSFN(ppoll)(struct pollfd* fds, nfds_t nfds, const struct timespec*, const s
 static void os_begin(const RunnerOpts& o, int fifo_tokens) {
   g_os = new OsWorld; g_os_opts = o; g_os->interrupts_left = o.may_interrupt ? 1 : 0;
   g_os->sigchld_first = verif_bool("sigchld_interrupts_poll_first");
-  if (fifo_tokens >= 0) { g_os->fifo_exists = true; for (int i = 0; i < fifo_tokens; i++) g_os->fifo.push_back((unsigned char)('a' + i)); g_os->fifo_tokens = fifo_tokens; }
+  if (fifo_tokens >= 0) { g_os->fifo_exists = true; g_os->external_tokens_left = 1; for (int i = 0; i < fifo_tokens; i++) g_os->fifo.push_back((unsigned char)('a' + i)); g_os->fifo_tokens = fifo_tokens; }
 }
 static void os_end() {
   VERIF_ASSERT(g_os->open_fds == 0, "C06: every pipe and jobserver descriptor ninja opened is closed by the time it exits");
   bool all_reaped = true; for (size_t i = 0; i < g_os->procs.size(); i++) all_reaped = all_reaped && g_os->procs[i].reaped;
   VERIF_ASSERT(all_reaped, "C06: every command ninja started has been waited for by the time it exits");
   if (g_os->fifo_exists) { VERIF_ASSERT(g_os->fifo_taken == g_os->fifo_returned, "C06: every jobserver token is returned by the time ninja exits, on every path");
-    bool same = (int)g_os->fifo.size() == g_os->fifo_tokens; for (int i = 0; same && i < g_os->fifo_tokens; i++) { bool have = false; for (size_t k = 0; k < g_os->fifo.size(); k++) have = have || g_os->fifo[k] == (unsigned char)('a' + i); same = have; }
+    bool same = (int)g_os->fifo.size() == g_os->fifo_tokens; { int za = 0, zb = 0; for (size_t k = 0; k < g_os->fifo.size(); k++) if (g_os->fifo[k] == (unsigned char)'z') za++; zb = g_os->external_tokens_left == 0 ? 1 : 0; same = same && za == zb; }
+    for (int i = 0; same && i < g_os->fifo_tokens - (g_os->external_tokens_left == 0 ? 1 : 0); i++) { bool have = false; for (size_t k = 0; k < g_os->fifo.size(); k++) have = have || g_os->fifo[k] == (unsigned char)('a' + i); same = have; }
     VERIF_ASSERT(same, "C06: the jobserver pool holds the same tokens afterwards (each token is written back with the value that was read)"); }
   VERIF_ASSERT(g_os->h_int == 0 && g_os->h_term == 0 && g_os->h_hup == 0 && g_os->h_chld == 0, "C07: the signal handlers ninja installed are removed again");
   g_os = NULL;
